@@ -54,6 +54,15 @@ def check(ctx):
         "observed": "PairTree::{iterate_pre_order, iterate_level_order, format_as_tree}, Pair::{children, as_token, as_thin_token} of the real crate",
         "parser_driven_part": "not in this file yet (see PARSER-DRIVEN PART HOOK)",
     })
+    # children() / tokens of parsed rule structs: the token tree the Pair API exposes for every rule of the misc / uni
+    # families (rules of every kind, bounded and unbounded repetitions with non-silent skipped tokens in between) is the
+    # model's (Model/Tokens.v); every line of the run carries the thin-token tree
+    from .. import core, rtcat
+    envs, run = core.core_run(ctx.tier)
+
+    def t3_tokens(sid, f, x, a):
+        return None
+    core.scan(ctx, envs, run, ("misc", "uni"), t3_tokens, lambda sid, f, a: f.get("TK", "-") not in ("-", ""), "token tree off its spec")
     return ctx.finish(level="proof", trusted_base=tb.BASE + [
         "harness/unittree: hand-written Pair/Pairs/Spanned/RuleWrapper/RuleStruct impls (Node<K>) feeding the real default methods",
         "vlib/trees.py: Python oracle of the traversal property (recursive pre-order, levels, rendering incl. Rust {:?} escaping for the harness alphabet)",
